@@ -167,13 +167,16 @@ theorem withRx_inv {α : Type} (S : Suite) (s : Sess) (now ssrc : Nat) (f : Ctx 
       · exact hinv x h
       · rw [h]; exact stamp_keyed (hf c hc) now
   | none =>
+    cases hfull : rxFull s.rx now with
+    | true => rw [withRx_none_full S s now ssrc f hl hfull]; exact ⟨hinv, rfl, rfl, rfl, rfl, rfl, rfl⟩
+    | false =>
     cases hn : Ctx.new S ssrc s.profile s.rxMk s.rxMs now with
-    | error e => rw [withRx_none_newerr S s now ssrc f hl hn]; exact ⟨hinv, rfl, rfl, rfl, rfl, rfl, rfl⟩
+    | error e => rw [withRx_none_newerr S s now ssrc f hl hfull hn]; exact ⟨hinv, rfl, rfl, rfl, rfl, rfl, rfl⟩
     | ok c =>
       cases hr : (f c).1 with
-      | error e => rw [withRx_none_err S s now ssrc f hl hn hr]; exact ⟨hinv, rfl, rfl, rfl, rfl, rfl, rfl⟩
+      | error e => rw [withRx_none_err S s now ssrc f hl hfull hn hr]; exact ⟨hinv, rfl, rfl, rfl, rfl, rfl, rfl⟩
       | ok a =>
-        rw [withRx_none_ok S s now ssrc f hl hn hr]
+        rw [withRx_none_ok S s now ssrc f hl hfull hn hr]
         refine ⟨?_, rfl, rfl, rfl, rfl, rfl, rfl⟩
         intro x hx
         simp only [List.mem_append, List.mem_singleton] at hx
@@ -262,6 +265,7 @@ theorem withTx_result (S : Suite) (s : Sess) (now ssrc : Nat) (f : Ctx → Excep
 theorem withRx_result {α : Type} (S : Suite) (r : Sess) (now ssrc : Nat) (f : Ctx → Except Err α × Ctx)
     (hinv : TableInv S r.profile r.rxMk r.rxMs r.rx)
     (hk : srtpKeyLen ≤ r.rxMk.length) (hs : r.profile.saltLen ≤ r.rxMs.length)
+    (hroom : r.rx.length < maxRxContexts)
     (hssrc : ∀ c, (f c).2.ssrc = c.ssrc) :
     ∃ cr, cr.KeyedBy S r.profile r.rxMk r.rxMs ∧ cr.ssrc = ssrc ∧ (cr.roc, cr.last) = rocOf r.rx ssrc ∧
       ∀ a, (f cr).1 = .ok a → (r.withRx S now ssrc f).1 = .ok a ∧
@@ -280,7 +284,7 @@ theorem withRx_result {α : Type} (S : Suite) (r : Sess) (now ssrc : Nat) (f : C
     obtain ⟨h1, h2, h3, _, h5⟩ := Ctx.new_ok hn
     refine ⟨c, h5, h1, by simp [rocOf, hl, h2, h3], ?_⟩
     intro a ha
-    rw [withRx_none_ok S r now ssrc f hl hn ha]
+    rw [withRx_none_ok S r now ssrc f hl (rxFull_of_lt hroom) hn ha]
     refine ⟨rfl, ?_⟩
     have hl' : lookup (evict r.rx ssrc now) ssrc = none := by rw [lookup_evict_keep]; exact hl
     have := lookup_append_new (c := ({ (f c).2 with lastUsed := now } : Ctx)) hl'
@@ -491,14 +495,17 @@ theorem withRx_frame {α : Type} (S : Suite) (r : Sess) (T now ssrc : Nat) (f : 
       simp only [rocOf]
       rw [lookup_replace_other (by show (f c).2.ssrc ≠ k; rw [hssrc, hcs]; exact fun e => hk e.symm)]
   | none =>
+    cases hfull : rxFull r.rx now with
+    | true => rw [withRx_none_full S r now ssrc f hl hfull]; exact ⟨hu, fun _ _ => rfl⟩
+    | false =>
     cases hn' : Ctx.new S ssrc r.profile r.rxMk r.rxMs now with
-    | error e => rw [withRx_none_newerr S r now ssrc f hl hn']; exact ⟨hu, fun _ _ => rfl⟩
+    | error e => rw [withRx_none_newerr S r now ssrc f hl hfull hn']; exact ⟨hu, fun _ _ => rfl⟩
     | ok c =>
       have hcs : c.ssrc = ssrc := (Ctx.new_ok hn').1
       cases hr : (f c).1 with
-      | error e => rw [withRx_none_err S r now ssrc f hl hn' hr]; exact ⟨hu, fun _ _ => rfl⟩
+      | error e => rw [withRx_none_err S r now ssrc f hl hfull hn' hr]; exact ⟨hu, fun _ _ => rfl⟩
       | ok a =>
-        rw [withRx_none_ok S r now ssrc f hl hn' hr]
+        rw [withRx_none_ok S r now ssrc f hl hfull hn' hr]
         simp only [evict_noop ssrc hu hn]
         refine ⟨fun x hx => ?_, fun k hk => ?_⟩
         · simp only [List.mem_append, List.mem_singleton] at hx
@@ -533,5 +540,107 @@ theorem receiveRtp_snd (S : Suite) (s : Sess) (now : Nat) (raw : Bytes) (h : Hdr
   simp only
   cases hr : s.unprotectRtp S now h pad body with
   | mk res s' => cases res <;> rfl
+
+/-! ### table size -/
+
+theorem replace_length : ∀ (t : List Ctx) (c : Ctx), (replace t c).length = t.length
+  | [], _ => rfl
+  | x :: xs, c => by
+    simp only [replace]; split
+    · rfl
+    · simp [replace_length xs c]
+
+theorem evict_length_le (t : List Ctx) (k now : Nat) : (evict t k now).length ≤ t.length := by
+  unfold evict; split
+  · exact Nat.le_refl _
+  · exact List.length_filter_le _ _
+
+/-- a receive operation adds at most one context -/
+theorem withRx_length {α : Type} (S : Suite) (r : Sess) (now ssrc : Nat) (f : Ctx → Except Err α × Ctx) :
+    (r.withRx S now ssrc f).2.rx.length ≤ r.rx.length + 1 := by
+  cases hl : lookup r.rx ssrc with
+  | some c =>
+    cases hr : (f c).1 with
+    | error e => rw [withRx_some_err S r now ssrc f hl hr]; simp [replace_length]
+    | ok a =>
+      rw [withRx_some_ok S r now ssrc f hl hr]
+      have := evict_length_le (replace r.rx { (f c).2 with lastUsed := now }) ssrc now
+      rw [replace_length] at this
+      show (evict _ ssrc now).length ≤ _
+      omega
+  | none =>
+    cases hfull : rxFull r.rx now with
+    | true => rw [withRx_none_full S r now ssrc f hl hfull]; exact Nat.le_succ _
+    | false =>
+    cases hn : Ctx.new S ssrc r.profile r.rxMk r.rxMs now with
+    | error e => rw [withRx_none_newerr S r now ssrc f hl hfull hn]; exact Nat.le_succ _
+    | ok c =>
+      cases hr : (f c).1 with
+      | error e => rw [withRx_none_err S r now ssrc f hl hfull hn hr]; exact Nat.le_succ _
+      | ok a =>
+        rw [withRx_none_ok S r now ssrc f hl hfull hn hr]
+        have := evict_length_le r.rx ssrc now
+        show (evict r.rx ssrc now ++ [_]).length ≤ _
+        simp only [List.length_append, List.length_singleton]; omega
+
+theorem receiveRtp_length (S : Suite) (r : Sess) (now : Nat) (raw : Bytes) :
+    (r.receiveRtp S now raw).2.rx.length ≤ r.rx.length + 1 := by
+  cases hp : parseHdr raw with
+  | error e => unfold Sess.receiveRtp; rw [hp]; exact Nat.le_succ _
+  | ok v =>
+    obtain ⟨h, pad, body⟩ := v
+    rw [receiveRtp_snd S r now raw h pad body hp]
+    exact withRx_length S r now h.ssrc _
+
+theorem filter_keep_absent : ∀ (t : List Ctx) (k now : Nat), lookup t k = none →
+    t.filter (fun c => c.ssrc = k ∨ now - c.lastUsed < ssrcInactivityEvictSecs) =
+      t.filter (fun c => now - c.lastUsed < ssrcInactivityEvictSecs)
+  | [], _, _, _ => rfl
+  | x :: xs, k, now, h => by
+    simp only [lookup, List.find?_cons] at h
+    by_cases hx : x.ssrc = k
+    · simp [hx] at h
+    · simp only [hx, decide_false] at h
+      have ih := filter_keep_absent xs k now h
+      simp only [List.filter_cons, hx, false_or, ih]
+
+/-- what the cap is for: a receive table within `MAX_RX_CONTEXTS` stays within it, whatever arrives -/
+theorem withRx_bounded {α : Type} (S : Suite) (r : Sess) (now ssrc : Nat) (f : Ctx → Except Err α × Ctx)
+    (hb : r.rx.length ≤ maxRxContexts) : (r.withRx S now ssrc f).2.rx.length ≤ maxRxContexts := by
+  cases hl : lookup r.rx ssrc with
+  | some c =>
+    cases hr : (f c).1 with
+    | error e => rw [withRx_some_err S r now ssrc f hl hr]; simpa [replace_length] using hb
+    | ok a =>
+      rw [withRx_some_ok S r now ssrc f hl hr]
+      have := evict_length_le (replace r.rx { (f c).2 with lastUsed := now }) ssrc now
+      rw [replace_length] at this
+      show (evict _ ssrc now).length ≤ _
+      omega
+  | none =>
+    cases hfull : rxFull r.rx now with
+    | true => rw [withRx_none_full S r now ssrc f hl hfull]; exact hb
+    | false =>
+    cases hn : Ctx.new S ssrc r.profile r.rxMk r.rxMs now with
+    | error e => rw [withRx_none_newerr S r now ssrc f hl hfull hn]; exact hb
+    | ok c =>
+      cases hr : (f c).1 with
+      | error e => rw [withRx_none_err S r now ssrc f hl hfull hn hr]; exact hb
+      | ok a =>
+        rw [withRx_none_ok S r now ssrc f hl hfull hn hr]
+        show (evict r.rx ssrc now ++ [_]).length ≤ _
+        simp only [List.length_append, List.length_singleton]
+        by_cases hlt : r.rx.length < maxRxContexts
+        · have := evict_length_le r.rx ssrc now; omega
+        · have heq : maxRxContexts ≤ r.rx.length := by omega
+          -- full table: `rxFull = false` says fewer than the cap are live, and eviction keeps exactly those
+          unfold rxFull at hfull
+          rw [decide_eq_true heq, Bool.true_and] at hfull
+          have hlive := of_decide_eq_false hfull
+          have hev : evict r.rx ssrc now = r.rx.filter (fun c => now - c.lastUsed < ssrcInactivityEvictSecs) := by
+            unfold evict
+            rw [if_neg (by simp only [maxRxContexts_val, ssrcContextHighWatermark_val] at heq ⊢; omega)]
+            exact filter_keep_absent r.rx ssrc now hl
+          rw [hev]; omega
 
 end RtcModel.Srtp
